@@ -198,7 +198,7 @@ def cases(draw, tier="quick", force_sel=None):
                 if c == b"/" and filt == "path":
                     pat += c
                     i += 1
-                elif r == 1:
+                elif r == 1 and pat.count(b"*") < 4:
                     if not pat.endswith(b"*"):
                         pat += b"*"
                     i += draw(st.integers(1, 3))    # (in -path patterns a star that swallowed a slash simply matches nothing)
@@ -401,7 +401,8 @@ def heavy_case(args):
 def bigfile_case(args):
     """sparse host file of 4 GiB + delta with data at the start, across the 2^32 boundary and at the end; packed from a directory.
     Nothing of that size is materialised: the image is checked block by block, `rdsquashfs -c` is compared as a stream."""
-    delta, B, comp, seed = args
+    delta, B, comp, seed = args[:4]
+    nosparse = len(args) > 4 and args[4]      # sort file marks the file [nosparse]: 4 GiB of zero blocks are really stored, the inode has no holes
     import random, subprocess
     rng = random.Random(seed * 31 + delta)
     size = (1 << 32) + delta
@@ -416,7 +417,7 @@ def bigfile_case(args):
             if lo < hi:
                 buf[lo - off:hi - off] = d[lo - o:hi - o]
         return bytes(buf)
-    what = "file of 2^32%+d bytes (-b %d -c %s)" % (delta, B, comp)
+    what = "file of 2^32%+d bytes (-b %d -c %s%s)" % (delta, B, comp, ", [nosparse]" if nosparse else "")
     try:
         with Scratch("c01big") as sc:
             src = os.path.join(sc, "src")
@@ -431,7 +432,13 @@ def bigfile_case(args):
                 fh.write(b"neighbour")
             os.utime(fp, (1000, 1000))
             out = os.path.join(sc, "out.sqfs")
-            r = vcommon.run([vcommon.tool("asan", "gensquashfs"), "--pack-dir", src, "-b", str(B), "-c", comp, "-q", "-j", "4", out], timeout=900)
+            extra = []
+            if nosparse:
+                sf = os.path.join(sc, "sort.txt")
+                with open(sf, "wb") as fh:
+                    fh.write(b"0 [nosparse] big\n")
+                extra = ["-S", sf]
+            r = vcommon.run([vcommon.tool("asan", "gensquashfs"), "--pack-dir", src, "-b", str(B), "-c", comp, "-q", "-j", "4"] + extra + [out], timeout=1800)
             if r.timeout:
                 return ("violation", delta, "gensquashfs does not finish on a " + what, None)
             if r.sanitizer() or r.rc != 0:
@@ -445,6 +452,8 @@ def bigfile_case(args):
             nb_data = 0
             for w in ino.block_sizes:
                 want = min(B, size - off)
+                if w == 0 and nosparse:
+                    return ("violation", delta, "%s: block at offset %d is stored as a hole although the file is marked nosparse" % (what, off), None)
                 if w == 0:
                     if any(model(off, want)):
                         return ("violation", delta, "%s: block at offset %d is stored as a hole but holds data" % (what, off), None)
@@ -493,7 +502,8 @@ def bigfile_case(args):
             r = vcommon.run([vcommon.tool("asan", "rdsquashfs"), "-s", "/big", out], timeout=60)
             if r.rc != 0 or (b"%d" % size) not in r.out:
                 return ("violation", delta, "rdsquashfs -s does not report %d bytes for the %s" % (size, what), None)
-            return ("ok", delta, ["bigfile_4g%+d" % delta, "bigfile_data_blocks_%d" % nb_data], "bigfile-%d-%d-%s" % (delta, B, comp))
+            return ("ok", delta, ["bigfile_4g%+d%s" % (delta, "_nosparse" if nosparse else ""), "bigfile_data_blocks_%d" % min(nb_data, 9999)],
+                    "bigfile-%d-%d-%s-%s" % (delta, B, comp, nosparse))
     except sqfsimg.FormatError as ex:
         return ("violation", delta, "%s: image does not parse: %s" % (what, ex), None)
 
@@ -507,9 +517,9 @@ def main(tier, seed, scale=1.0):
     heavy = [65535, 65536] if tier == "quick" else [65534, 65535, 65536, 65537]
     hp = mp.get_context("fork").Pool(2)
     hres = hp.map_async(heavy_case, [(h, seed) for h in heavy], chunksize=1)
-    bigs = [(1, 1 << 20, "gzip", seed)] if tier == "quick" else [(0, 1 << 20, "zstd", seed), (1, 1 << 20, "gzip", seed), (-1, 1 << 20, "lz4", seed),
+    bigs = [(1, 1 << 20, "gzip", seed), (5, 1 << 20, "lz4", seed, True)] if tier == "quick" else [(7, 1 << 20, "zstd", seed, True), (0, 1 << 20, "zstd", seed), (1, 1 << 20, "gzip", seed), (-1, 1 << 20, "lz4", seed),
                                                                 (5000, 131072, "gzip", seed), (123457, 1 << 20, "xz", seed)]
-    bp = mp.get_context("fork").Pool(1 if tier == "quick" else 2)
+    bp = mp.get_context("fork").Pool(2)
     bres = bp.map_async(bigfile_case, bigs if scale >= 0.2 else [], chunksize=1)
     for d in vcommon.run_shards("c01", "check_case", "strat", n, seed, tier, {"prop": PROP}, shards=14):
         res.merge_shard(d)
@@ -530,7 +540,7 @@ def main(tier, seed, scale=1.0):
             for c in r[2]:
                 res.add_class(c)
         else:
-            res.violations.append((r[2], vcommon.save_replay(PROP, dict(bigfile=True, delta=r[1], seed=seed), r[2])))
+            res.violations.append((r[2], vcommon.save_replay(PROP, dict(bigfile=True, delta=r[1], seed=seed, nosparse=("nosparse" in r[2])), r[2])))
     bp.close()
     res.rule = ("Hypothesis: random trees (all inode types, hostile names, content recipes around k*B, sparse, duplicates, shared "
                 "tails/leading blocks, hard links, xattrs) x option sets (compressor+extras, block size, -T -e -j -Q -B, --defaults, "
@@ -550,7 +560,7 @@ def replay(path):
     c = vcommon.load_replay(path)["case"]
     if isinstance(c, dict) and c.get("bigfile"):
         res = Result(PROP)
-        r = bigfile_case((c["delta"], c.get("B", 1 << 20), c.get("comp", "gzip"), c.get("seed", 1)))
+        r = bigfile_case((c["delta"], c.get("B", 1 << 20), c.get("comp", "lz4" if c.get("nosparse") else "gzip"), c.get("seed", 1), bool(c.get("nosparse"))))
         res.evaluations = 1
         if r[0] != "ok":
             res.violations.append((r[2], path))
